@@ -36,39 +36,59 @@ TIE = ("S: real infinite_watch vs the Lean world machine, act by act, on seeded 
        "inside `async with insights.revised` (re-proved equal to the model's locked variant); whole-operator runs, incl. "
        "rapid namespace/CRD changes during a suspended pass, checked by the oracle")
 LEVEL_TEXT = (
-    "Lean theorems for ALL adversary scripts (changes, deliveries, bookmarks, EOF/connection/timeouts, in-stream 410, "
-    "HTTP 410, 429/other request failures, unknown ERROR, garbage, compaction, pause/resume timing) over a model of "
-    "infinite_watch∘streaming_block∘continuous_watch∘watch_objs against a change-log server: no_skip_inv/no_skip "
-    "(everything up to `since` was delivered or listed; at quiescence nothing is missing), deliver_in_order, "
-    "resume_point, relist_on_410 (in-stream ERROR 410 and HTTP 410 on the watch request, both re-list), respond_never_fails, "
-    "unknown_error_raises, failed_is_final, paused_silent, fresh_list_on_resume; and for ALL insight histories: "
-    "adjust_keys (one-step characterisation), watchers_nodup, kept_tasks_kept, exactly_one_watch_partial (guard: a "
-    "namespace is served or no cluster-scoped resource; fixed operator mode; stable scope) with "
-    "exactly_one_watch_lingering_witness; and for ALL interleavings of observer revisions with the orchestrator's segments "
-    "around the condition insights.revised: revise_wakes, pass_progress, no_lost_wakeup, exactly_one_watch_async_partial, with "
-    "unlocked_pass_loses_wakeup_witness for the variant that releases the lock before the pass. The models are hand-written and tied to the code by correspondence runs.")
+    "Lean theorems for ALL adversary scripts (changes, deliveries, bookmarks, EOF/connection/timeouts, in-stream and HTTP 410, "
+    "escalated request failures and re-sent attempts, unknown ERROR, garbage, compaction, pause/notice/resume/unblock timing) over a "
+    "model of infinite_watch∘streaming_block∘continuous_watch∘watch_objs against a change-log server: "
+    "consumer_view_is_server_state (what the consumer was handed = the server's state at `since`, always), no_skip_inv, no_skip "
+    "(at quiescence: the current state of every object), listing_yields_live, deliver_in_order, resume_point, relist_on_410 (both "
+    "forms, run-level), respond_never_fails, unknown_error_raises, failed_is_final, fresh_list_on_resume, quiescence_reachable "
+    "(possibility under a cooperative environment; no fairness/liveness is proved); PARTIAL: paused_silent_partial (guard: no attempt "
+    "re-sent by api.request's retry loop; paused_retry_witness = open C19-F2); LIMIT with witness: deleted_in_relist_gap_witness "
+    "(open C19-F5). For ALL histories of insight revisions and watcher deaths: adjust_keys, watchers_nodup, kept_tasks_kept, "
+    "served_pairs_have_live_watcher; PARTIAL: exactly_one_watch_partial (guards: fixed mode — cluster-wide incl. the empty start-up "
+    "revisions, or namespaced —, stable scope, and in namespaced mode a namespace served or no cluster-scoped resource; "
+    "exactly_one_watch_lingering_witness = open C19-F3). For ALL interleavings of observer revisions, task deaths and orchestrator "
+    "segments around insights.revised: pass_progress (enabledness), no_lost_wakeup, exactly_one_watch_async_partial, "
+    "served_pairs_live_async (guard: no death since the last pass; death_while_idle_witness = open C19-F6), "
+    "unlocked_pass_loses_wakeup_witness. The models are hand-written and tied to the code by correspondence runs; the pass-under-lock "
+    "shape of orchestrator() is re-extracted from the AST on every run.")
 THEOREMS = [("Kopf.Props.C19", "Kopf.C19." + n) for n in [
-    "no_skip_inv", "no_skip", "deliver_in_order", "resume_point", "relist_on_410",
-    "relist_covers_everything", "respond_never_fails", "unknown_error_raises", "failed_is_final",
-    "paused_silent", "pause_noticed_is_quiet", "fresh_list_on_resume", "outs_is_ghost", "adjust_keys", "watchers_nodup", "kept_tasks_kept",
-    "served_pairs_have_live_watcher", "exactly_one_watch_partial", "exactly_one_watch_lingering_witness",
-    "revise_wakes", "pass_progress", "no_lost_wakeup", "exactly_one_watch_async_partial",
-    "unlocked_pass_loses_wakeup_witness"]]
+    # one watch-stream, all adversary scripts
+    "consumer_view_is_server_state", "no_skip_inv", "no_skip", "listing_yields_live", "deleted_in_relist_gap_witness",
+    "deliver_in_order", "resume_point", "relist_on_410", "respond_never_fails", "unknown_error_raises", "failed_is_final",
+    "paused_silent_partial", "paused_retry_witness", "pause_noticed_is_quiet", "fresh_list_on_resume", "quiescence_reachable",
+    # adjust_tasks over histories of revisions and task deaths
+    "adjust_keys", "watchers_nodup", "kept_tasks_kept", "served_pairs_have_live_watcher",
+    "exactly_one_watch_partial", "exactly_one_watch_lingering_witness",
+    # the orchestrator around insights.revised, all interleavings
+    "pass_progress", "no_lost_wakeup", "exactly_one_watch_async_partial", "served_pairs_live_async",
+    "death_while_idle_witness", "unlocked_pass_loses_wakeup_witness"]]
 TIE_THEOREMS = [("Kopf.Tie.C19", "Kopf.C19.Tie.pass_under_lock")]
 RULE = ("stream scripts: 0-2 pre-existing objects, cluster-wide or namespaced watch, 3-10 moments at dyadic times, each a "
         "cluster of 1-3 ops in random order from {create/edit/delete/other-resource write, break eof/conn/410/error/garbage, "
-        "bookmark, unknown-type line, compact, HTTP-410 mode, request fault (429+Retry-After/500/403/404/conn/timeout × count) "
-        "on list or watch}, isolated pause/resume moments, server/client/inactivity timeouts small enough to fire; "
-        "histories: 2-7 insight revisions over 3 resources (2 namespaced, 1 cluster-scoped) × 4 namespaces, cluster-wide or "
-        "namespaced mode; a case is distinct by its abstracted (act, outputs) sequence and non-trivial when a fault, a pause "
+        "bookmark, unknown-type line, compact, HTTP-410 mode, request fault (429+Retry-After/500/403/404/conn/timeout × count; each "
+        "re-sent attempt is a `retry` act of the model) on list or watch}, isolated pause/resume moments, server/client/inactivity timeouts small enough to fire; "
+        "histories: 2-7 insight revisions (30 % followed by running watchers exiting on their own) over 3 resources (2 namespaced, 1 cluster-scoped) × 4 namespaces, cluster-wide or "
+        "namespaced mode; operator runs: namespace/CRD churn, rapid successions during a suspended pass, object deletions, stream "
+        "breaks; a case is distinct by its abstracted (act, outputs) sequence and non-trivial when a fault, a pause "
         "or a removal occurs")
 TRUSTED = ["harness/sim fake API (list/watch/replay/410 semantics, fault injection) and virtual-time loop",
            "harness/props/sim_c19.py observation points (api.request wrapper, watching.asyncio proxy, FakeContent.iter_chunked wrapper, ToggleSet subclass)",
            "the server half of the Lean world (watch since v = every stored version after v in order, or 410 below the horizon) is the Kubernetes API contract; it is exercised against the fake API by the same tie"]
-ASSUMPTIONS = ["resource versions are modelled as naturals (Kubernetes: opaque strings; kopf never compares them, the fake issues integers)",
-               "one call of api.request is one request of the model; its retry loop is C12's subject (attempts are read from the fake's request log by the oracle)",
+ASSUMPTIONS = ["resource versions are modelled as naturals (Kubernetes: opaque strings; kopf never compares them, the fake issues integers); "
+               "every listing carries a resourceVersion (fetching.py tolerates its absence: the watch would then start 'now' — not modelled)",
+               "the API contract is the adversary's limit: a watch since v sends every stored version above v in order or 410 below the horizon; "
+               "bookmarks conform (since ≤ b ≤ current, nothing in scope in between) — a non-conforming bookmark is ignored by the model, the code would take it",
+               "one call of api.request is one request of the model; attempts re-sent by its retry loop are the `retry` act (observed at the fake API); "
+               "how many there are and after which delays is C12's subject",
+               "between the pause toggle and the moment the pause-waiter task has run (`notice`) requests may still go out; a listing answered "
+               "while paused is still yielded",
                "a resource keeps its scope (namespaced/cluster) over a history; operator mode (cluster-wide vs namespaced) is fixed per run",
-               "peering absent (standalone or peering CRD not in the backbone)"]
+               "peering absent (standalone or peering CRD not in the backbone)",
+               "orchestrator LTS: the orchestrator reaches its first wait() before the first revision (observers need API round-trips first); "
+               "a pass is atomic w.r.t. the ensemble because aiotasks.stop() has no timeout; a watcher ending with a non-404 error cancels the "
+               "orchestrator and stops the operator (kopf 9ef1bcb) — that edge is C20's subject and not in the C19 models",
+               "no liveness/fairness theorem: all statements are safety, at-quiescence, or possibility under a cooperative environment"]
 
 # C19-F1 was repaired in kopf e006454; the signature stays so that a regression is reported as a VIOLATION
 def extract(ctx: Ctx) -> None:
@@ -112,10 +132,14 @@ F2_SIG = {"site": "api.request", "shape": "retry attempts of a list/watch reques
 F3_SIG = {"site": "orchestration.terminate_redundancies", "shape": "cluster-scoped watcher survives the removal of the last served namespace"}
 
 # C19-F4 was repaired in kopf 9ef1bcb; the signature stays so that a regression is reported as a VIOLATION
+F5_SIG = {"site": "watching.continuous_watch",
+          "shape": "object deleted inside a re-list gap (410 / pause / backoff): DELETED is never yielded, the fresh listing just omits it"}
+F6_SIG = {"site": "orchestration.orchestrator.exception_handler",
+          "shape": "watcher exits on HTTP 404 while the orchestrator is idle: nobody is notified, the served pair stays unwatched until the next revision"}
 F4_SIG = {"site": "orchestration.spawn_missing_watchers",
           "shape": "dead watcher task (ended with an exception) keeps its key: the served pair is never watched again"}
 
-CLIENT_ACTS = {"wake", "notice", "unblock", "respond", "failReq", "deliver", "bookmark", "drop", "err410",
+CLIENT_ACTS = {"wake", "notice", "unblock", "respond", "failReq", "retry", "deliver", "bookmark", "drop", "err410",
                "errUnknown", "unknownType", "garbage"}
 
 
@@ -242,6 +266,7 @@ def derive(obs: list) -> dict:
     stream_open = False
     absorb410 = False
     expect_closed = False
+    first_attempt = False
     list_rv = 0
 
     def kid(name: str) -> int:
@@ -285,7 +310,14 @@ def derive(obs: list) -> dict:
             stream_open = False
         elif k == "req":
             absorb410 = False
+            first_attempt = True
             out(["reqList"] if rec[1] == "list" else ["reqWatch", int(rec[2]) if rec[2] is not None else -1])
+        elif k == "http":
+            if first_attempt:
+                first_attempt = False       # the attempt that belongs to the `req` just logged
+            else:
+                add(["retry"])              # api.request's retry loop re-sends the request
+                out(["retryList"] if rec[1] == "list" else ["retryWatch", int(rec[2]) if rec[2] is not None else -1])
         elif k == "rsp":
             kind, how, extra = rec[1], rec[2], rec[3]
             if how in ("ok", "gone"):
@@ -370,6 +402,7 @@ def oracle_stream(sc: dict, r: dict) -> list[tuple[str, dict]]:
     first_list_rv: int | None = None
     delivered: set[tuple[str, int]] = set()
     view: dict[str, int] = {}
+    told: dict[str, str | None] = {}      # the last thing the consumer was handed about each object (type; None = listed)
     items: dict[str, int] | None = None
     pending_list_rv: int | None = None
     expect_raise = False
@@ -426,6 +459,7 @@ def oracle_stream(sc: dict, r: dict) -> list[tuple[str, dict]]:
                 fails.append(("an event was yielded after an unknown ERROR event: the error was skipped",
                               {"site": "watching.continuous_watch", "shape": "unknown ERROR event not raised"}))
             if typ is None:
+                told[name] = None
                 if items is not None:
                     items[name] = int(rv)
             elif typ == "LISTED":
@@ -437,6 +471,7 @@ def oracle_stream(sc: dict, r: dict) -> list[tuple[str, dict]]:
             elif typ == "BOOKMARK":
                 seen = int(rv)
             else:
+                told[name] = typ
                 if rv is not None:
                     seen = int(rv)
                     delivered.add((name, int(rv)))
@@ -490,6 +525,11 @@ def oracle_stream(sc: dict, r: dict) -> list[tuple[str, dict]]:
             if view != final:
                 fails.append((f"at quiescence the consumer's latest versions {view} differ from the server's {final}",
                               {"site": "watching.infinite_watch", "shape": "change lost: final delivered state != server state at quiescence"}))
+            for name, typ in sorted(told.items()):
+                if typ != "DELETED" and name not in final:
+                    fails.append((f"object {name} was handed to the consumer, is gone now, and DELETED was never yielded for it "
+                                  "(deleted while the stream was down; the re-listing just does not contain it)", F5_SIG))
+                    break
             for rv, _t, name in vis_log:
                 if rv > first_list_rv and not ((name, rv) in delivered or (last_list_rv is not None and rv <= last_list_rv)):
                     fails.append((f"version {rv} of {name} was never delivered and no later listing covers it",
@@ -638,6 +678,9 @@ def gen_operator(rng: random.Random, seed: int) -> dict:
             tl.append([t, rng.choice(["add_ns", "del_ns"]), rng.choice(["team-a", "team-b", "team-c", "other"])])
         elif q < 0.6:
             tl.append([t, rng.choice(["add_res", "del_res"]), rng.choice(["kopfexamples", "clusterthings", "widgets"])])
+        elif q < 0.66:
+            tl.append([t, "delete", rng.choice(["kopfexamples", "widgets", "clusterthings"]),
+                       rng.choice(["team-a", "team-b", "other"]), rng.choice(["x", "y"])])
         elif q < 0.85:
             tl.append([t, "create", rng.choice(["kopfexamples", "widgets", "clusterthings"]),
                        rng.choice(["team-a", "team-b", "other"]), rng.choice(["x", "y"])])
@@ -707,6 +750,11 @@ def oracle_operator(sc: dict, r: dict) -> list[tuple[str, dict]]:
             dup = len(set(got)) != len(got)
             if not missing and not dup and not nss and all((not SCOPE[g[0]]) and g[1] is None and g[0] in served for g in extra):
                 fails.append((f"t={c['t']}: no namespace is served but the cluster-scoped watch(es) {extra} are still open", F3_SIG))
+            elif not extra and not dup and missing and all(m[0] in r.get("not_found", []) for m in missing) and \
+                    not any(o[1] in ("add_ns", "del_ns", "add_res", "del_res") and o[0] >= min(r["not_found_at"][m[0]] for m in missing)
+                            for o in sc["timeline"] if o[0] <= c["t"] - 1.0):
+                fails.append((f"t={c['t']}: served pair(s) {missing} have no watch: the watcher exited on HTTP 404 and no revision of the "
+                              "insights followed, so no pass has replaced it", F6_SIG))
             elif not extra and not dup and missing and all(m[0] in r.get("not_found", []) for m in missing):
                 fails.append((f"t={c['t']}: served pair(s) {missing} have no watch: the watcher died on HTTP 404 while its CRD was away, "
                               "its key stayed in the ensemble, and it is never started again", F4_SIG))
@@ -724,13 +772,25 @@ def oracle_operator(sc: dict, r: dict) -> list[tuple[str, dict]]:
         else:
             ok_ns = [n for n in last["namespaces"] if any(fnmatch.fnmatch(n, p) for p in sc["patterns"])]
         seen = {(c["res"], c["ns"], c["name"]): c["rv"] for c in r["calls"]}
+        last_type = {(c["res"], c["ns"], c["name"]): c["type"] for c in r["calls"]}
+        present = {(p, n, nm) for p, n, nm, _rv in last["objects"]}
+        open_now = {(w[0], w[1]) for w in last["watches"]}
+        for (plural, ns, name), typ in sorted(last_type.items(), key=str):
+            pair = (plural, ns if SCOPE[plural] and ok_ns is not None else None)
+            if typ != "DELETED" and (plural, ns, name) not in present and plural in served and pair in open_now:
+                fails.append((f"{plural}/{ns}/{name} was handled, is gone now, and no handler was ever called with DELETED for it", F5_SIG))
+                break
         for plural, ns, name, rv in last["objects"]:
             if plural not in served or (SCOPE[plural] and ok_ns is not None and ns not in ok_ns):
                 continue
             if not SCOPE[plural] and ok_ns is not None and not ok_ns:
                 continue        # no namespace is served: no (resource, namespace) pair is served at all
             if seen.get((plural, ns, name)) != rv:
-                if plural in r.get("not_found", []) and (plural, ns if SCOPE[plural] else None) not in \
+                if (plural, ns if SCOPE[plural] and ok_ns is not None else None) not in open_now and plural in r.get("not_found", []) and \
+                        not any(o[1] in ("add_ns", "del_ns", "add_res", "del_res") and o[0] >= r["not_found_at"][plural] for o in sc["timeline"]):
+                    fails.append((f"{plural}/{ns}/{name} is at version {rv}, the last version a handler saw is {seen.get((plural, ns, name))}: "
+                                  "its watcher exited on HTTP 404 and nothing replaced it", F6_SIG))
+                elif plural in r.get("not_found", []) and (plural, ns if SCOPE[plural] else None) not in \
                         {(w[0], w[1]) for w in last["watches"]} and (plural, None) not in {(w[0], w[1]) for w in last["watches"]}:
                     fails.append((f"{plural}/{ns}/{name} is at version {rv}, the last version a handler saw is {seen.get((plural, ns, name))}: "
                                   "its watcher died on HTTP 404 and is never started again", F4_SIG))
@@ -912,7 +972,7 @@ def search(ctx: Ctx, broken: list) -> None:
         items.append(("stream", gen_script(rng, 7_000_000 + i)))
     for i in range(ctx.budget(2000, 20000)):
         items.append(("adjust", gen_history(rng, 7_000_000 + i)))
-    open_sigs = [F2_SIG, F3_SIG]
+    open_sigs = [F2_SIG, F3_SIG, F5_SIG, F6_SIG]
     for res in _run_items(items, jobs):
         for what, sig in res.get("fails", []):
             if sig not in open_sigs:
